@@ -62,6 +62,15 @@ Theorem pure_old_style_is_read_as_v1 :
 Proof. exact pure_v1_detected. Qed.
 Print Assumptions pure_old_style_is_read_as_v1.
 
+(* only the exact lower-case operator words, a parenthesis or a wildcard are new-style keywords; a text whose words merely
+   resemble them (OR, And, NOT, order) and that has a comma, a negation prefix or several words is read in the old dialect *)
+Theorem words_that_only_resemble_operators_are_tags :
+  forall text, (forall w, In w (words_of text) -> ordinary_word w) ->
+    has_comma (words_of text) || has_v1_prefix (words_of text) || Nat.ltb 1 (length (words_of text)) = true ->
+    select_auto text = DV1.
+Proof. exact ordinary_words_read_as_v1. Qed.
+Print Assumptions words_that_only_resemble_operators_are_tags.
+
 (* the known finding, as a machine-checked witness: one positive word with a limit goes to v2 *)
 Example single_word_with_limit_goes_to_v2 :
   select_auto [64; 102; 111; 111; 58; 51]%N = DV2 /\
